@@ -160,6 +160,10 @@ impl Prop for C16 {
                 if !u.cfg.kv.is_empty() {
                     return u.key.ends_with("/L0");
                 }
+                // style edition 2015: the one-line and one-token-per-line layouts only
+                if u.cfg.style_edition == 2015 && !(u.key.ends_with("/L0") || u.key.ends_with("/LALL")) {
+                    return false;
+                }
                 base_form || u.key.ends_with("/L0") || u.key.ends_with("/LALL")
             });
         }
@@ -239,6 +243,10 @@ impl Prop for C16 {
             let toks: Vec<_> = crate::lex::lex(&p.text).into_iter().filter(|t| !t.is_trivia()).collect();
             for (gi, w) in toks.windows(2).enumerate() {
                 for (ci, c) in ["/**/", "/***/", "/*!*/", "/* */", "/*\n*/", "//\n", "///\n", "//!\n", "/**\n*/", "/*/*/**/*/*/", "/*\n\n*/", "//\\\n"].iter().enumerate() {
+                    // quick tier: the first eight shapes
+                    if !thorough && ci >= 8 {
+                        continue;
+                    }
                     let mut t = String::with_capacity(p.text.len() + 16);
                     t.push_str(&p.text[..w[0].end]);
                     t.push(' ');
@@ -248,6 +256,10 @@ impl Prop for C16 {
                     for (lname, text) in [("L0", t.clone()), ("LALL", gen::layout(&t, Layout::LAll))] {
                         if lname == "LALL" && c.contains('\n') && c.starts_with("//") {
                             continue; // re-laying out a line comment's own terminator changes the comment
+                        }
+                        // quick tier: the one-token-per-line layout for the first three shapes
+                        if !thorough && lname == "LALL" && ci >= 3 {
+                            continue;
                         }
                         units.push(Unit {
                             key: format!("{}/degenerate-comment:g{gi}c{ci}/{lname}", p.key()),
@@ -297,7 +309,7 @@ impl Prop for C16 {
             for (i, c) in contents.iter().enumerate() {
                 cases.push((format!("one{i}"), render(kind, &[c])));
             }
-            if thorough || ki < 2 {
+            if thorough || ki < 1 {
                 for (i, (a, b)) in two_line.iter().enumerate() {
                     cases.push((format!("two{i}"), render(kind, &[a, b])));
                 }
@@ -310,7 +322,8 @@ impl Prop for C16 {
                 };
                 for (pos, text) in texts {
                     for (ci, cfg) in comment_cfgs.iter().enumerate() {
-                        if !thorough && ci >= 3 && name.starts_with("two") {
+                        // quick tier: the three wrap_comments configurations
+                        if !thorough && ci >= 3 {
                             continue;
                         }
                         units.push(Unit {
